@@ -82,6 +82,9 @@ def run(ctx):
                     if c not in fam["values"]:
                         violations.append({"what": "%s by participant %d returned a handle reading %s, not a complete value of the key" % (opk, i, c),
                                            "classification": {"kind": "partial-read", "op": opk, "family": fam["name"].split(":")[1]}, "replay": replay})
+                    if d.get("off") not in (None, "0"):
+                        violations.append({"what": "%s by participant %d returned a handle positioned at offset %s: reading it to the end yields a truncated value" % (opk, i, d.get("off")),
+                                           "classification": {"kind": "handle-not-at-start", "op": opk}, "replay": replay})
                     if "late" in d and d["late"] != c:
                         violations.append({"what": "the handle returned by %s (participant %d) read %s at return and %s after other participants ran" % (opk, i, c, d["late"]),
                                            "classification": {"kind": "content-changed", "op": opk, "family": fam["name"].split(":")[1]}, "replay": replay})
